@@ -235,3 +235,53 @@ def run(chk):
         same += 1
     chk.cov['components']['literal-stream'] = {'evaluations': len(mlines), 'streams_identical': same, 'inputs': len(datas)}
     chk.cov['evaluations'] += len(mlines)
+    # ---- (e) the FSE-compressed weight description: what the compressor writes for a weight list (table description +
+    # two interleaved states) = description + the modelled two-state stream, byte for byte; the decoder model reads the
+    # weights back (model of proofs/C13_WeightStream.v)
+    wlists = []
+    for _ in range(400 if thorough else 120):
+        n = rng.choice([17, 18, 19, 20, 33, 64, 100, 127, 128, 200, 254, 255])
+        style = rng.below(4)
+        if style == 0:
+            mx = 1 + rng.below(11)
+            ws = [rng.below(mx + 1) for _ in range(n)]
+        elif style == 1:
+            ws = [1 + (i % 3 == 0) for i in range(n)]
+        elif style == 2:
+            ws = [0] * n
+            for _ in range(2 + rng.below(12)):
+                ws[rng.below(n)] = 1 + rng.below(8)
+        else:
+            ws = [min(11, 1 + rng.below(1 + rng.below(11))) for _ in range(n)]
+        if len(set(ws)) < 2:
+            ws[0] = (ws[0] + 1) % 12
+        wlists.append(bytes(ws))
+    wr = zh_par('entropy', ['fseenc2 6 1 ' + w.hex() for w in wlists])
+    wl, wreal = [], []
+    for w, r in zip(wlists, wr):
+        if r.startswith('ok '):
+            wl.append(w); wreal.append(unhex(r.split()[1]))
+    wm = model_run('hufweights', ['%s %s' % (hexs(real), hexs(w)) for w, real in zip(wl, wreal)])
+    nsame = nback = 0
+    for w, real, m in zip(wl, wreal, wm):
+        t = (m or 'missing').split()
+        if t[0] != 'ok' and len(real) >= 128:
+            continue                    # longer than a header byte can announce: the compressor would not emit it
+        if t[0] != 'ok':
+            chk.tie_broken('correspondence:weight-stream', 'the decoder model cannot read the weight description the compressor wrote for %d weights: %s' % (len(w), (m or '')[:40]))
+            break
+        used = int(t[1])
+        if unhex(t[2]) != real[used:]:
+            chk.tie_broken('correspondence:weight-stream', 'the modelled two-state weight stream for %d weights differs from the one the compressor wrote: model %s real %s' % (
+                len(w), t[2][:60], hexs(real[used:])[:60]))
+            break
+        nsame += 1
+        if len(real) >= 128:
+            continue                    # a header byte below 128 cannot announce it: only the stream is compared
+        if unhex(t[3]) != w:
+            chk.tie_broken('correspondence:weight-stream', 'the decoder model reads other weights back than were written (%d weights)' % len(w))
+            break
+        nback += 1
+    chk.cov['components']['weight-stream'] = {'evaluations': len(wl), 'streams_identical': nsame, 'weights_read_back': nback,
+                                               'lengths': sorted(set(len(w) for w in wl))}
+    chk.cov['evaluations'] += len(wl)
